@@ -13,6 +13,7 @@ use std::time::{Duration, Instant};
 
 use tinylfu_cached::cache::cached::CacheD;
 use tinylfu_cached::cache::config::ConfigBuilder;
+use tinylfu_cached::cache::put_or_update::PutOrUpdateRequestBuilder;
 use tinylfu_cached::cache::stats::StatsType;
 use tinylfu_cached::cache::verif::{Controller, Role};
 
@@ -52,6 +53,9 @@ pub fn run(args: &[String]) {
     let threads: usize = args.get(0).map(|s| s.parse().unwrap()).unwrap_or(4);
     let millis: u64 = args.get(1).map(|s| s.parse().unwrap()).unwrap_or(2000);
     let seed: u64 = args.get(2).map(|s| s.parse().unwrap()).unwrap_or(1);
+    // "upserts": the mix also contains put_or_update calls that are valid whether or not the key is present (they always
+    // carry a value; a time-to-live or a weight now and then); only panics and hangs are judged in this mode
+    let upserts = args.get(3).map(|s| s == "upserts").unwrap_or(false);
     crate::sched::install_panic_hook();
     const KEYS: u64 = 4;
 
@@ -107,7 +111,7 @@ pub fn run(args: &[String]) {
             while !stop.load(Ordering::SeqCst) {
                 let k = rng.below(KEYS);
                 let v = rng.next() % 1000;
-                let op = rng.below(10);
+                let op = if upserts && rng.below(3) == 0 { 10 + rng.below(3) } else { rng.below(10) };
                 let attempt = std::panic::catch_unwind(std::panic::AssertUnwindSafe(|| match op {
                     0 | 1 | 2 => {
                         // light, medium and heavy keys: a heavy put may have to evict everything it can see
@@ -117,6 +121,9 @@ pub fn run(args: &[String]) {
                     3 => cache.put_with_weight(SlowKey(k), v, match rng.below(3) { 0 => 5 + rng.below(10), 1 => 30 + rng.below(10), _ => 60 + rng.below(41) } as i64).ok(),
                     4 | 5 | 6 => cache.delete(SlowKey(k)).ok(),
                     7 => { let _ = cache.get_ref(&SlowKey(k)).map(|r| *r.value().value_ref()); None }
+                    10 => cache.put_or_update(PutOrUpdateRequestBuilder::new(SlowKey(k)).value(v).build()).ok(),
+                    11 => cache.put_or_update(PutOrUpdateRequestBuilder::new(SlowKey(k)).value(v).time_to_live(Duration::from_millis(250 + rng.below(750))).build()).ok(),
+                    12 => cache.put_or_update(PutOrUpdateRequestBuilder::new(SlowKey(k)).value(v).weight(5 + rng.below(40) as i64).build()).ok(),
                     _ => { let _ = cache.get(&SlowKey(k)); None }
                 }));
                 match attempt {
@@ -166,7 +173,7 @@ pub fn run(args: &[String]) {
     }
     let panic_list: Vec<String> = panics.lock().unwrap().clone();
     println!("{}", J::obj(vec![
-        ("stress2", J::Bool(true)), ("threads", J::I(threads as i128)), ("millis", J::I(millis as i128)), ("operations", J::I(total as i128)),
+        ("stress2", J::Bool(true)), ("upserts", J::Bool(upserts)), ("threads", J::I(threads as i128)), ("millis", J::I(millis as i128)), ("operations", J::I(total as i128)),
         ("hung", J::Bool(hung)), ("min_total_seen", J::I(min_seen.load(Ordering::SeqCst) as i128)),
         ("max_total_seen", J::I(max_seen.load(Ordering::SeqCst) as i128)), ("cache_weight", J::I(100)),
         ("final_total", J::I(final_total as i128)), ("keys_balance", J::I(keys_balance)),
